@@ -182,7 +182,7 @@ func (p *Program) groundObligations() []*Obligation {
 				h["unstable_i"] = strconv.Itoa(i)
 			}
 		}
-		obls = append(obls, groundObl(lang+"/nfkd-stable", []string{"C02", "C08", "C10", "C11"}, wit == "", "NFKD(w) == w for every word of wordlist."+lang, wit))
+		obls = append(obls, groundObl(lang+"/nfkd-stable", []string{"C02", "C03", "C08", "C10", "C11", "C15"}, wit == "", "NFKD(w) == w for every word of wordlist."+lang, wit))
 		facts[lang+"/stable"] = wit == ""
 		// G7 equals the reference list
 		ref, err := os.ReadFile(filepath.Join(verifDir, "ref", "wordlists", refFileName(lang)))
